@@ -161,3 +161,71 @@ func verifH_C02_query_locations() {
 	_ = strings.Contains
 	verifReach("end")
 }
+
+//verif:harness id=C02 tier=quick,thorough witness=end,rejected,resolved bounds="decoys in the referring document: (a) a reference into another file to a member that file does not have, while the referring document has a member of that name (nine component kinds, the referring document being the root or a second external file): loading fails; (b) an internal reference (#/x-defs/X, #/definitions/X) inside a file loaded as a whole-file schema / parameter / response, while the root document has or has not a different object at the same pointer: it resolves to the object of the file that contains the reference"
+func verifH_C02_decoys() {
+	if verifChoose("case", 2) == 0 {
+		kind := verifKinds[verifChoose("kind", len(verifKinds))]
+		comp := func(entries string) string { return `"components":{"` + kind + `":{` + entries + `}}` }
+		files := map[string]string{"/r/x.json": `{` + comp(`"Other":`+verifTargets[kind]) + `}`}
+		var rootText string
+		head := `{"openapi":"3.0.0","info":{"title":"t","version":"1"},"paths":{},`
+		if verifChoose("referrer", 2) == 0 {
+			rootText = head + comp(`"OnlyHere":`+verifTargets[kind]+`,"A":{"$ref":"x.json#/components/`+kind+`/OnlyHere"}`) + `}`
+		} else {
+			// the referrer is a second file: y.json has OnlyHere and refers to x.json's (missing) OnlyHere
+			files["/r/y.json"] = `{` + comp(`"OnlyHere":`+verifTargets[kind]+`,"A":{"$ref":"x.json#/components/`+kind+`/OnlyHere"}`) + `}`
+			rootText = head + comp(`"A":{"$ref":"y.json#/components/`+kind+`/A"}`) + `}`
+		}
+		doc, err := verifLoadFiles(rootText, files)
+		verifReach("rejected")
+		verifAssert(err != nil && doc == nil, "C02 decoys: a reference to a member the designated file does not have makes loading fail (it is not looked up in the referring document)")
+		verifReach("end")
+		return
+	}
+	mark := func(m string) string { return `{"type":"string","description":"` + m + `"}` }
+	area := []string{"x-defs", "definitions"}[verifChoose("area", 2)]
+	inner := `{"$ref":"#/` + area + `/X"}`
+	local := `"` + area + `":{"X":` + mark("file") + `}`
+	kind := verifChoose("kind", 3)
+	var file, slot string
+	switch kind {
+	case 0:
+		file = `{"type":"object","properties":{"x":` + inner + `},` + local + `}`
+		slot = `"schemas":{"S":{"$ref":"s.json"}}`
+	case 1:
+		file = `{"name":"p","in":"query","schema":` + inner + `,` + local + `}`
+		slot = `"parameters":{"S":{"$ref":"s.json"}}`
+	case 2:
+		file = `{"description":"d","content":{"text/plain":{"schema":` + inner + `}},` + local + `}`
+		slot = `"responses":{"S":{"$ref":"s.json"}}`
+	}
+	decoy := ""
+	if verifChoose("decoy", 2) == 1 {
+		decoy = `"` + area + `":{"X":` + mark("root") + `},`
+	}
+	rootText := `{"openapi":"3.0.0","info":{"title":"t","version":"1"},` + decoy + `"paths":{},"components":{` + slot + `}}`
+	doc, err := verifLoadFiles(rootText, map[string]string{"/r/s.json": file})
+	verifAssert(err == nil && doc != nil, "C02 decoys: a whole-file element with an internal reference loads")
+	if err != nil || doc == nil {
+		return
+	}
+	var r *SchemaRef
+	switch kind {
+	case 0:
+		if s := doc.Components.Schemas["S"]; s != nil && s.Value != nil {
+			r = s.Value.Properties["x"]
+		}
+	case 1:
+		if p := doc.Components.Parameters["S"]; p != nil && p.Value != nil {
+			r = p.Value.Schema
+		}
+	case 2:
+		if p := doc.Components.Responses["S"]; p != nil && p.Value != nil && p.Value.Content["text/plain"] != nil {
+			r = p.Value.Content["text/plain"].Schema
+		}
+	}
+	verifReach("resolved")
+	verifAssert(r != nil && r.Value != nil && r.Value.Description == "file", "C02 decoys: an internal reference inside a whole-file element resolves to the object of the file that contains it")
+	verifReach("end")
+}
